@@ -287,3 +287,162 @@ Lemma dropN_subN {A} (l : list A) a : dropN a l = subN l a (lenN l - a).
 Proof. unfold subN. symmetry. apply takeN_all. rewrite dropN_length. lia. Qed.
 
 Global Hint Rewrite @lenN_app @lenN_cons @lenN_nil le_enc_lenN be_enc_lenN : len.
+
+(* ---------- field readers ---------- *)
+(* slice[a..a+n].try_into().unwrap() followed by uN::from_le_bytes / from_be_bytes *)
+Definition rd_le (l : list N) (a n : N) : res N :=
+  do s <- slice l a (a + n); do s' <- arr n s; Ok (le_val s').
+Definition rd_be (l : list N) (a n : N) : res N :=
+  do s <- slice l a (a + n); do s' <- arr n s; Ok (be_val s').
+
+Lemma rd_le_eq l a n : a + n <= lenN l -> rd_le l a n = Ok (le_val (subN l a n)).
+Proof.
+  intros H. unfold rd_le. rewrite slice_ok by lia. cbn [bind].
+  replace (a + n - a) with n by lia.
+  rewrite arr_ok by (apply subN_length; lia). reflexivity.
+Qed.
+
+Lemma rd_le_ok l a n : a + n <= lenN l -> bytes l ->
+  exists w, rd_le l a n = Ok w /\ w < 256 ^ n /\ le_enc (N.to_nat n) w = subN l a n.
+Proof.
+  intros H Hb. rewrite rd_le_eq by assumption. eexists; split; [reflexivity|].
+  assert (L : lenN (subN l a n) = n) by (apply subN_length; assumption).
+  split.
+  - rewrite <- L at 2. apply le_val_bound, bytes_subN. assumption.
+  - apply le_enc_val'; [apply bytes_subN; assumption|]. unfold lenN in L. lia.
+Qed.
+
+Lemma rd_le_total l a n : a + n <= lenN l -> rd_le l a n <> Panic.
+Proof. intros. rewrite rd_le_eq by assumption. discriminate. Qed.
+
+Definition nthN (l : list N) (i : N) : N := nth (N.to_nat i) l 0.
+
+Lemma idx_nthN l i : i < lenN l -> idx l i = Ok (nthN l i).
+Proof.
+  intros H. unfold idx, nthN. destruct (nth_error l (N.to_nat i)) eqn:E.
+  - f_equal. symmetry. apply nth_error_nth. assumption.
+  - apply nth_error_None in E. unfold lenN in H. lia.
+Qed.
+Lemma nthN_byte l i : bytes l -> nthN l i < 256.
+Proof.
+  intros Hb. unfold nthN. destruct (Nat.lt_ge_cases (N.to_nat i) (length l)).
+  - unfold bytes in Hb. rewrite Forall_forall in Hb. apply Hb. apply nth_In. assumption.
+  - rewrite nth_overflow by assumption. lia.
+Qed.
+Lemma nthN_subN l i : i < lenN l -> subN l i 1 = [nthN l i].
+Proof.
+  intros H. assert (Hk : (N.to_nat i < length l)%nat) by (unfold lenN in H; lia). clear H.
+  unfold subN, takeN, dropN, nthN.
+  change (N.to_nat 1) with 1%nat.
+  revert l Hk. generalize (N.to_nat i) as k.
+  induction k as [|k IH]; intros [|x l] Hk; cbn [length] in Hk; try lia.
+  - reflexivity.
+  - cbn [skipn nth]. apply IH. lia.
+Qed.
+
+Lemma rd_be_eq l a n : a + n <= lenN l -> rd_be l a n = Ok (be_val (subN l a n)).
+Proof.
+  intros H. unfold rd_be. rewrite slice_ok by lia. cbn [bind].
+  replace (a + n - a) with n by lia.
+  rewrite arr_ok by (apply subN_length; lia). reflexivity.
+Qed.
+Lemma slice_arr_eq {A} (l : list A) a b n : b = a + n -> b <= lenN l ->
+  (do s <- slice l a b; arr n s) = Ok (subN l a n).
+Proof.
+  intros -> H. rewrite slice_ok by lia. cbn [bind]. replace (a + n - a) with n by lia.
+  apply arr_ok. apply subN_length. lia.
+Qed.
+
+Lemma subN_join {A} (l : list A) a n b m k : b = a + n -> k = n + m ->
+  subN l a n ++ subN l b m = subN l a k.
+Proof. intros -> ->. symmetry. apply subN_split. Qed.
+Lemma subN_last {A} (e : list A) a n : a = 0 -> n = lenN e -> subN e a n = e.
+Proof. intros -> ->. apply subN_all. reflexivity. Qed.
+Lemma usub_ok m w a b : b <= a -> usub m w a b = Ok (a - b).
+Proof. intros H. unfold usub. destruct (N.leb_spec b a); [reflexivity|lia]. Qed.
+Lemma umul_ok m w a b : a * b < 2 ^ w -> umul m w a b = Ok (a * b).
+Proof. intros H. unfold umul. destruct (N.ltb_spec (a * b) (2 ^ w)); [reflexivity|lia]. Qed.
+Lemma slice_from_to_arr {A} (l : list A) a n : a + n <= lenN l ->
+  (do s <- slice_from l a; do s2 <- slice_to s n; arr n s2) = Ok (subN l a n).
+Proof.
+  intros H. rewrite slice_from_ok by lia. cbn [bind].
+  rewrite slice_to_ok by (rewrite dropN_length; lia). cbn [bind].
+  apply arr_ok. apply subN_length. assumption.
+Qed.
+Lemma slice_from_arr {A} (l : list A) a n : a + n = lenN l ->
+  (do s <- slice_from l a; arr n s) = Ok (subN l a n).
+Proof.
+  intros H. rewrite slice_from_ok by lia. cbn [bind].
+  rewrite dropN_subN. replace (lenN l - a) with n by lia.
+  apply arr_ok. apply subN_length. lia.
+Qed.
+Lemma slice_from_to {A} (l : list A) a n : a + n <= lenN l ->
+  (do s <- slice_from l a; slice_to s n) = Ok (subN l a n).
+Proof.
+  intros H. rewrite slice_from_ok by lia. cbn [bind].
+  rewrite slice_to_ok by (rewrite dropN_length; lia). reflexivity.
+Qed.
+Lemma subN_join' {A} (l : list A) a n b m : b = a + n -> subN l a n ++ subN l b m = subN l a (n + m).
+Proof. intros ->. symmetry. apply subN_split. Qed.
+Lemma be_val_app a b : be_val (a ++ b) = be_val a * 256 ^ lenN b + be_val b.
+Proof.
+  unfold be_val. rewrite rev_app_distr.
+  replace (lenN b) with (lenN (rev b)) by (unfold lenN; rewrite rev_length; reflexivity).
+  generalize (rev a) as x. generalize (rev b) as y. clear.
+  induction y as [|c y IH]; intros x; cbn [app le_val].
+  - rewrite lenN_nil. change (256^0) with 1. lia.
+  - rewrite IH, lenN_cons. rewrite N.add_1_r, N.pow_succ_r'. lia.
+Qed.
+Lemma be_subN_enc l a n k : bytes l -> a + n <= lenN l -> k = N.to_nat n ->
+  be_enc k (be_val (subN l a n)) = subN l a n.
+Proof.
+  intros Hb H ->. apply be_enc_val'; [apply bytes_subN; assumption|].
+  pose proof (subN_length l a n H) as L. unfold lenN in L. lia.
+Qed.
+Lemma be_subN_bound l a n : bytes l -> a + n <= lenN l -> be_val (subN l a n) < 256 ^ n.
+Proof.
+  intros Hb H. rewrite <- (subN_length l a n H) at 2. apply be_val_bound, bytes_subN. assumption.
+Qed.
+Lemma len6 (mac : list N) : length mac = 6%nat -> exists a b c d e g, mac = [a; b; c; d; e; g].
+Proof.
+  intros H. destruct mac as [|a [|b [|c [|d [|e [|g [|x t]]]]]]]; try discriminate. do 6 eexists. reflexivity.
+Qed.
+Lemma subN_tail2 {A} (p m s : list A) a n : a = lenN p -> n = lenN m -> subN (p ++ m ++ s) a n = m.
+Proof. intros -> ->. apply subN_mid; reflexivity. Qed.
+Lemma subN_tail1 {A} (p m : list A) a n : a = lenN p -> n = lenN m -> subN (p ++ m) a n = m.
+Proof. intros -> ->. rewrite <- (app_nil_r m) at 1. apply subN_mid; reflexivity. Qed.
+
+Lemma uadd_ok m w a b : a + b < 2 ^ w -> uadd m w a b = Ok (a + b).
+Proof. intros H. unfold uadd. destruct (N.ltb_spec (a + b) (2 ^ w)); [reflexivity|lia]. Qed.
+
+Lemma negb_eqb_false a b : negb (a =? b) = false -> a = b.
+Proof. destruct (N.eqb_spec a b); [auto|discriminate]. Qed.
+Lemma orb_false_both a b : a || b = false -> a = false /\ b = false.
+Proof. apply orb_false_iff. Qed.
+Ltac norm_hyps := repeat match goal with
+  | H : negb (_ =? _) = false |- _ => apply negb_eqb_false in H
+  | H : _ || _ = false |- _ => apply orb_false_both in H; destruct H
+  | H : (_ <? _) = false |- _ => apply N.ltb_ge in H
+  | H : (_ <=? _) = false |- _ => apply N.leb_gt in H
+  | H : (_ <? _) = true |- _ => apply N.ltb_lt in H
+  | H : (_ <=? _) = true |- _ => apply N.leb_le in H
+  | H : (_ =? _) = true |- _ => apply N.eqb_eq in H
+  | H : (_ =? _) = false |- _ => apply N.eqb_neq in H
+  end.
+Ltac len_lia := autorewrite with len; lia.
+(* read a field out of a right-nested concatenation e0 ++ e1 ++ ... *)
+Ltac sub_walk :=
+  first [ rewrite subN_app_hd by len_lia
+        | rewrite subN_last by len_lia
+        | rewrite subN_app_r by len_lia; sub_walk ].
+
+Lemma le_subN_enc l a n k : bytes l -> a + n <= lenN l -> k = N.to_nat n ->
+  le_enc k (le_val (subN l a n)) = subN l a n.
+Proof.
+  intros Hb H ->. apply le_enc_val'; [apply bytes_subN; assumption|].
+  pose proof (subN_length l a n H) as L. unfold lenN in L. lia.
+Qed.
+Lemma le_subN_bound l a n : bytes l -> a + n <= lenN l -> le_val (subN l a n) < 256 ^ n.
+Proof.
+  intros Hb H. rewrite <- (subN_length l a n H) at 2. apply le_val_bound, bytes_subN. assumption.
+Qed.
